@@ -6,8 +6,12 @@
    cancellation fails (cancel_stuck: the order then stays, without shards and without a
    scheduled check; needs an order whose payer has no payment address or an insolvent
    escrow). The bounded-response statement over whole histories is NOT proved; the
-   refutations below exhibit the two known ways an order stays unresolved (finding D15). *)
-From SaoVerif Require Import Base.Prelude Base.Ints Base.Dec Model.Did Model.Types Model.Monad Model.Bank Model.Select Model.Node Model.Storage Model.Sao Model.Hooks Model.App Model.Spec Proofs.Schedule.
+   refutations below exhibit the two known ways an order stays unresolved (finding D15).
+   The variant of progress is proved at the call site (Proofs/Placement.v, timeout_new_shards_fresh): every
+   shard a timeout check creates goes to an eligible provider that neither holds nor has timed out on a shard
+   of the order, so each re-assignment uses up a provider; the clause is also the monitor
+   sel.order_sps_distinct on implementation states. *)
+From SaoVerif Require Import Base.Prelude Base.Ints Base.Dec Model.Did Model.Types Model.Monad Model.Bank Model.Select Model.Node Model.Storage Model.Sao Model.Hooks Model.App Model.Spec Proofs.Schedule Proofs.RefInt Proofs.Placement.
 From RecordUpdate Require Import RecordUpdate.
 Import RecordSetNotations.
 
@@ -54,3 +58,24 @@ Theorem C12_long_timeout_refuted : exists cx oid s o, orders s !! oid = Some o /
   handle_timeout_order cx oid s = Ok tt s /\ timeouts s = ∅.
 Proof. first [exact long_timeout_refuted | apply long_timeout_refuted]. Qed.
 Print Assumptions C12_long_timeout_refuted.
+
+(* the variant of progress - every re-assignment uses up a fresh eligible provider *)
+Theorem C12_timeout_new_shards_fresh : forall cx oid s s' o,
+  handle_timeout_order cx oid s = Ok tt s' -> orders s !! oid = Some o -> 0 <= cx_seed cx ->
+  0 <= shard_count s -> shard_count s + Z.of_nat (length (o_shards o)) < two64 -> fresh_above s ->
+  forall id sh', shards s' !! id = Some sh' -> shards s !! id = None ->
+    sh_order sh' = oid /\ sh_status sh' = ShardWaiting /\
+    (forall id0 sh0, In id0 (o_shards o) -> shards s !! id0 = Some sh0 -> sh_sp sh0 <> sh_sp sh') /\
+    (exists n, nodes s !! sh_sp sh' = Some n /\ eligible (pledges s) (i64 (o_size o)) (mkCand (sh_sp sh') n) = true) /\
+    (forall id2 sh2, id2 <> id -> shards s' !! id2 = Some sh2 -> shards s !! id2 = None -> sh_sp sh2 <> sh_sp sh').
+Proof. first [exact timeout_new_shards_fresh | apply timeout_new_shards_fresh]. Qed.
+Print Assumptions C12_timeout_new_shards_fresh.
+
+Theorem C12_timeout_reassign_nonvacuous :
+  exists s' o, handle_timeout_order (W.cxh 105) 1 W.s1 = Ok tt s' /\ orders W.s1 !! 1 = Some o /\
+    fresh_above W.s1 /\ shard_count W.s1 = 2 /\ shards W.s1 !! 2 = None /\
+    (exists sh, shards W.s1 !! 1 = Some sh /\ sh_sp sh = "T") /\
+    (exists sh', shards s' !! 2 = Some sh' /\ sh_sp sh' = "S" /\ sh_status sh' = ShardWaiting) /\
+    (exists sh1, shards s' !! 1 = Some sh1 /\ sh_status sh1 = ShardTimeout).
+Proof. first [exact timeout_reassign_nonvacuous | apply timeout_reassign_nonvacuous]. Qed.
+Print Assumptions C12_timeout_reassign_nonvacuous.
